@@ -66,14 +66,17 @@ Proof.
   - destruct (IH ip n H) as (pg & Hin & Hip & Ho). exists pg. split; [right; exact Hin|]. auto.
 Qed.
 
-Lemma first_sibling_some fs req ae : forall encs n e,
-  first_sibling fs req ae encs = Some (n, e) ->
-  exists ext, In (e, ext) encs /\ accepts ae e = true /\ fs_open fs (req ++ ext) = Some n.
+Lemma first_sibling_some fs hide req ae : forall encs n e,
+  first_sibling fs hide req ae encs = Some (n, e) ->
+  exists ext, In (e, ext) encs /\ accepts ae e = true /\ fs_open fs (req ++ ext) = Some n /\
+              is_hidden fs hide n = false.
 Proof.
   induction encs as [|[name ext] r IH]; intros n e H; simpl in H; [discriminate|].
   destruct (accepts ae name) eqn:A.
   - destruct (fs_open fs (req ++ ext)) as [m|] eqn:E.
-    + injection H as <- <-. exists ext. split; [left; reflexivity|]. auto.
+    + destruct (is_hidden fs hide m) eqn:Hh.
+      * destruct (IH n e H) as (x & Hin & Ha & Ho). exists x. split; [right; exact Hin|]. auto.
+      * injection H as <- <-. exists ext. split; [left; reflexivity|]. auto.
     + destruct (IH n e H) as (x & Hin & Ha & Ho). exists x. split; [right; exact Hin|]. auto.
   - destruct (IH n e H) as (x & Hin & Ha & Ho). exists x. split; [right; exact Hin|]. auto.
 Qed.
@@ -84,7 +87,7 @@ Qed.
 Lemma serve_file_serve fs hide pages prefix m req ae n enc :
   serve_file fs hide pages prefix m req ae = Serve n enc ->
   is_get_head m = true /\ In n fs /\ served_from pages req ae enc (n_path n) /\
-  (enc = None -> n_dir n = false /\ is_hidden fs hide n = false).
+  (enc = None -> n_dir n = false) /\ is_hidden fs hide n = false.
 Proof.
   unfold serve_file. destruct (is_get_head m); [|discriminate]. simpl negb. cbv iota.
   destruct (bad_name req); [discriminate|].
@@ -106,11 +109,11 @@ Proof.
   destruct (n_dir d1 || is_hidden fs hide d1) eqn:Eg; [discriminate|].
   apply orb_false_iff in Eg as [Hnd Hnh].
   intros H. split; [reflexivity|].
-  destruct (first_sibling fs req1 ae gen_static_encodings) as [[sn e]|] eqn:Es.
+  destruct (first_sibling fs hide req1 ae gen_static_encodings) as [[sn e]|] eqn:Es.
   - injection H as <- <-.
-    destruct (first_sibling_some _ _ _ _ _ _ Es) as (ext & Hin & Ha & Ho).
+    destruct (first_sibling_some _ _ _ _ _ _ _ Es) as (ext & Hin & Ha & Ho & Hh).
     apply fs_open_some in Ho as (Hfs & Hp & _).
-    split; [exact Hfs|]. split; [|discriminate].
+    split; [exact Hfs|]. split; [|split; [discriminate|exact Hh]].
     exists req1. split; [exact Hbase|]. exists ext. auto.
   - injection H as <- <-.
     apply fs_open_some in Ho1 as (Hfs & Hp & _).
@@ -526,7 +529,7 @@ Proof.
         subst x. apply redirect_ok. apply trim_dslash_one. eexists. reflexivity.
     + destruct (if n_dir d then _ else _) as [req1 d1].
       destruct (n_dir d1 || is_hidden fs hide d1); [discriminate|].
-      destruct (first_sibling fs req1 ae gen_static_encodings) as [[sn e]|]; discriminate.
+      destruct (first_sibling fs hide req1 ae gen_static_encodings) as [[sn e]|]; discriminate.
 Qed.
 
 Lemma browse_redirect fs hide pages confs m req ae archive code loc :
@@ -567,11 +570,11 @@ Qed.
 Lemma casketfile_never_served fs hide pages root name cf m req ae h :
   hide_casketfile root (root ++ jail name) = Some h -> In h hide ->
   fs_open fs (jail name) = Some cf ->
-  forall n, serve_file fs hide pages [SLASH] m req ae = Serve n None -> n_id n <> n_id cf.
+  forall n enc, serve_file fs hide pages [SLASH] m req ae = Serve n enc -> n_id n <> n_id cf.
 Proof.
-  intros Hh Hin Hcf n Hs Heq.
+  intros Hh Hin Hcf n enc Hs Heq.
   destruct (hide_casketfile_inside root name) as [E _]. rewrite E in Hh. injection Hh as <-.
-  apply serve_file_serve in Hs as (_ & _ & _ & Hnone). destruct (Hnone eq_refl) as [_ Hnh].
+  apply serve_file_serve in Hs as (_ & _ & _ & _ & Hnh).
   unfold is_hidden, hidden_id in Hnh.
   assert (Ht : existsb (fun h => match fs_open fs h with Some hn => n_id hn =? n_id n | None => false end) hide = true).
   { apply existsb_exists. exists (jail name). split; [exact Hin|]. rewrite Hcf. apply N.eqb_eq. congruence. }
@@ -648,29 +651,13 @@ Lemma static_plain_body fs hide pages prefix m req ae n :
   serve_file fs hide pages prefix m req ae = Serve n None ->
   n_dir n = false /\ is_hidden fs hide n = false.
 Proof.
-  intros H. destruct (serve_file_serve _ _ _ _ _ _ _ _ _ H) as (_ & _ & _ & Hn). apply Hn. reflexivity.
+  intros H. destruct (serve_file_serve _ _ _ _ _ _ _ _ _ H) as (_ & _ & _ & Hn & Hh). auto.
 Qed.
 
-Lemma static_never_hidden_partial fs hide pages prefix m req ae n enc :
-  no_hidden_sibling fs hide ->
+Lemma static_never_hidden fs hide pages prefix m req ae n enc :
   serve_file fs hide pages prefix m req ae = Serve n enc -> is_hidden fs hide n = false.
 Proof.
-  intros Hno H.
-  destruct enc as [e|].
-  - unfold serve_file in H.
-    destruct (is_get_head m); [|discriminate]. simpl negb in H. cbv iota in H.
-    destruct (bad_name req); [discriminate|].
-    destruct (fs_open fs req) as [d|]; [|discriminate].
-    repeat match type of H with
-           | (if ?b then Redirect _ _ else _) = _ => destruct b; [discriminate|]
-           end.
-    destruct (if n_dir d then _ else _) as [req1 d1].
-    destruct (n_dir d1 || is_hidden fs hide d1); [discriminate|].
-    destruct (first_sibling fs req1 ae gen_static_encodings) as [[sn e']|] eqn:Es; [|discriminate].
-    injection H as <- <-.
-    destruct (first_sibling_some _ _ _ _ _ _ Es) as (ext & Hin & _ & Ho).
-    exact (Hno _ _ _ _ Hin Ho).
-  - destruct (serve_file_serve _ _ _ _ _ _ _ _ _ H) as (_ & _ & _ & Hn). apply Hn. reflexivity.
+  intros H. destruct (serve_file_serve _ _ _ _ _ _ _ _ _ H) as (_ & _ & _ & _ & Hh). exact Hh.
 Qed.
 
 Lemma archive_inside_root fs hide pages confs m req ae archive ms :
@@ -718,8 +705,7 @@ Lemma site_sound (s : site) (r : request) :
   | Serve n enc =>
       is_get_head (q_meth r) = true /\ In n (s_fs s) /\
       served_from (s_pages s) (q_path r) (q_ae r) enc (n_path n) /\
-      (enc = None -> n_dir n = false /\ is_hidden (s_fs s) (s_hide s) n = false) /\
-      (no_hidden_sibling (s_fs s) (s_hide s) -> is_hidden (s_fs s) (s_hide s) n = false)
+      (enc = None -> n_dir n = false) /\ is_hidden (s_fs s) (s_hide s) n = false
   | Listing kids =>
       forall k, In k kids -> In k (s_fs s) /\ is_child (jail (q_path r)) (n_path k) = true /\
                              is_hidden (s_fs s) (s_hide s) k = false
@@ -735,23 +721,14 @@ Proof.
   destruct (handle s r) as [c|c loc|n enc|kids|ms] eqn:H; [exact I| | | |]; symmetry in E.
   - intros Hr. eapply browse_redirect; eassumption.
   - apply browse_serve in E.
-    destruct (serve_file_serve _ _ _ _ _ _ _ _ _ E) as (Hm & Hin & Hs & Hn).
-    repeat split; auto; try (apply Hn; assumption).
-    intros Hno. eapply static_never_hidden_partial; eassumption.
+    destruct (serve_file_serve _ _ _ _ _ _ _ _ _ E) as (Hm & Hin & Hs & Hn & Hh).
+    repeat split; auto.
   - intros k Hk. eapply listing_sound; eassumption.
   - intros k Hk. eapply archive_inside_root; eassumption.
 Qed.
 
 (* refutation witnesses (the fixture tree the harness serves) *)
 Local Open Scope string_scope.
-Lemma static_never_hidden_refuted :
-  exists fs hide pages req ae n enc,
-  serve_file fs hide pages [SLASH] 0 req ae = Serve n enc /\ is_hidden fs hide n = true.
-Proof.
-  exists fixture_fs, gen_c02_hide, gen_default_index_pages, (bs "/hsib.txt"), (bs "gzip").
-  eexists. eexists. split; vm_compute; reflexivity.
-Qed.
-
 Lemma static_serves_regular_file_refuted :
   exists fs hide pages req ae n enc,
   serve_file fs hide pages [SLASH] 0 req ae = Serve n enc /\ n_dir n = true.
